@@ -152,6 +152,7 @@ type checker struct {
 	violations  []string
 	knownHits   map[string]bool
 	replayed    map[string]bool
+	reachState  map[string]string // harness function/label -> sat | unknown | unsat, over all runs of the function
 	inconcl     []string
 	mismatch    []string
 	vacuous     []string
@@ -209,7 +210,7 @@ func cmdCheck(args []string) int {
 	if t := os.Getenv("VERIF_TIER"); t != "" && *tier == "" {
 		*tier = t
 	}
-	c := &checker{repo: *repo, verif: *verif, prop: *prop, tier: *tier, knownHits: map[string]bool{}, replayed: map[string]bool{}, t0: time.Now()}
+	c := &checker{repo: *repo, verif: *verif, prop: *prop, tier: *tier, knownHits: map[string]bool{}, replayed: map[string]bool{}, reachState: map[string]string{}, t0: time.Now()}
 	c.seed, _ = strconv.ParseInt(os.Getenv("VERIF_SEED"), 10, 64)
 	c.fastCap, c.slowCap, c.execCap = 8*time.Second, 90*time.Second, 5*time.Minute
 	if *tier == "thorough" {
@@ -341,6 +342,19 @@ func (c *checker) run(only string, trace bool, dump string) (code int) {
 		}
 	}
 	// summary
+	rkeys := make([]string, 0, len(c.reachState))
+	for k := range c.reachState {
+		rkeys = append(rkeys, k)
+	}
+	sort.Strings(rkeys)
+	for _, k := range rkeys {
+		switch c.reachState[k] {
+		case "unsat":
+			c.vacuous = append(c.vacuous, fmt.Sprintf("reach witness %s is unreachable in every state of every run", k))
+		case "unknown":
+			c.inconcl = append(c.inconcl, fmt.Sprintf("reach witness %s undecided", k))
+		}
+	}
 	if len(c.mismatch) > 0 {
 		for _, m := range c.mismatch {
 			fmt.Printf("ENCODING-MISMATCH property=%s %s\n", c.prop, m)
@@ -454,28 +468,19 @@ func (c *checker) oneRun(r runSpec, pool *solver.Pool, dump string) int {
 	}
 	pool.Run(jobs2)
 	nUnsat, nSat, nUnk := 0, 0, 0
-	reachSat := map[string]bool{}
-	reachSeen := map[string]bool{}
 	for _, p := range pend {
 		if p.vc.Kind == "reach" {
-			reachSeen[p.vc.Label] = true
-			if p.job.Out.Res == solver.Sat {
-				reachSat[p.vc.Label] = true
+			key := r.H.Pkg + "." + r.H.Func + "/" + p.vc.Label
+			if c.reachState[key] == "" {
+				c.reachState[key] = "unsat"
 			}
-		}
-	}
-	for l := range reachSeen {
-		if !reachSat[l] {
-			und := false
-			for _, p := range pend {
-				if p.vc.Kind == "reach" && p.vc.Label == l && p.job.Out.Res == solver.Unknown {
-					und = true
+			switch p.job.Out.Res {
+			case solver.Sat:
+				c.reachState[key] = "sat"
+			case solver.Unknown:
+				if c.reachState[key] != "sat" {
+					c.reachState[key] = "unknown"
 				}
-			}
-			if und {
-				c.inconcl = append(c.inconcl, fmt.Sprintf("%s: reach %q undecided", r, l))
-			} else {
-				c.vacuous = append(c.vacuous, fmt.Sprintf("%s: reach witness %q is unreachable in every state", r, l))
 			}
 		}
 	}
